@@ -39,6 +39,9 @@ METHODS = {
     "synchronizecache10": ([0, 0], {}, 0x35, 10, None),
     "atapassthrough12": ([4, 2, 1, 1, 0, 0, 0, 1, 0, 0xEC], {}, 0xA1, 12, None),
     "atapassthrough16": ([4, 2, 1, 1, 0, 0, 0, 1, 0, 0xEC], {}, 0x85, 16, None),
+    # ... with the data-in buffer supplied by the caller (`data=`): a writable buffer that is not a bytearray (a view into a pool)
+    "atapassthrough12_buf": ([4, 2, 1, 1, 0, 0, 0, 1, 0, 0xEC], {"data": "__memoryview__512"}, 0xA1, 12, None),
+    "atapassthrough16_buf": ([4, 2, 1, 1, 0, 0, 0, 1, 0, 0xEC], {"data": "__memoryview__512"}, 0x85, 16, None),
     "readcd": ([16, 2], {"est": 2, "mcsb": 0x17}, 0xBE, 12, None),
     "readdiscinformation": ([0], {}, 0x51, 10, (7, 2)),
     "raw_execute": ([], {}, 0x00, 6, None),       # s.execute(TestUnitReady(...))
@@ -53,7 +56,7 @@ ALT_ARGS = {
     "readcapacity16": ([], {"alloclen": 12}), "reporttargetportgroups": ([], {"alloclen": 16}), "reportpriority": ([], {"alloclen": 16}),
     "readdiscinformation": ([1], {}), "atapassthrough16": ([4, 2, 1, 1, 0, 0, 0, 2, 0, 0xEC], {}), "atapassthrough12": ([4, 2, 1, 1, 0, 0, 0, 2, 0, 0xEC], {}),
 }
-REAL = {"inquiry_vpd": "inquiry", "reportluns_small": "reportluns", "read10_tl0": "read10", "read16_tl0": "read16"}
+REAL = {"atapassthrough12_buf": "atapassthrough12", "atapassthrough16_buf": "atapassthrough16", "inquiry_vpd": "inquiry", "reportluns_small": "reportluns", "read10_tl0": "read10", "read16_tl0": "read16"}
 OUTCOMES = ["good", "cc5", "cc6", "cc6b", "cc2", "busy", "oserror", "conflict"]
 SENSE = {"cc5": (5, 0x24, 0x00), "cc6": (6, 0x29, 0x00), "cc6b": (6, 0x2A, 0x01), "cc2": (2, 0x04, 0x01)}
 ISCSI_STATUS = {"busy": 0x08, "conflict": 0x18}
@@ -199,6 +202,13 @@ def impl_main():
             a2, k2 = ALT_ARGS.get(st["m"], (args, kw))
             state["reenter"] = lambda: getattr(s_o, REAL.get(st["m"], st["m"]))(*a2, **k2)
         r = dict()
+        pool = None
+        if any(isinstance(v, str) and v.startswith("__memoryview__") for v in kw.values()):
+            pool = bytearray(4096)
+            kw = dict(kw)
+            for k2, v in list(kw.items()):
+                if isinstance(v, str) and v.startswith("__memoryview__"):
+                    kw[k2] = memoryview(pool)[1024:1024 + int(v[len("__memoryview__"):])]
         signal.setitimer(signal.ITIMER_REAL, 5.0)
         try:
             try:
@@ -216,6 +226,9 @@ def impl_main():
                         n = state["execs"][0]["in_len"] or 0
                         exp = fill_bytes(st["seed"], n, st["fill"])
                         r["datain_ok"] = bytes(cmd.datain[:n]) == exp and len(cmd.datain) == n
+                        if pool is not None:
+                            # the caller's own buffer is where the device's data must be
+                            r["caller_buffer_ok"] = bytes(pool[1024:1024 + n]) == exp
                         if getattr(cmd, "result", None):
                             try:
                                 ukw = {"evpd": 1} if st["m"] == "inquiry_vpd" else ({"lba": 16, "tl": 2, "est": 2, "mcsb": 0x17} if st["m"] == "readcd" else {})
@@ -319,7 +332,7 @@ def oracle_step(t, st, r, aspects):
     if "once" in aspects and len(ex) != 1:
         return "once", "%s handed %d commands to the binding (answers %s)" % (st["m"], len(ex), st["outcomes"][:len(ex) + 1])
     if "status" in aspects:
-        ata = st["m"] in ("atapassthrough12", "atapassthrough16")
+        ata = st["m"].startswith("atapassthrough")
         if o[0] == "return" and first != "good":
             # the ATA PASS-THROUGH methods ask for raw sense: over SG_IO a CHECK CONDITION then comes back attached to the command
             # (over SG_IO a binding that has no sense data to give is outside the contract of §6 — CheckConditionError always carries bytes —
@@ -330,7 +343,7 @@ def oracle_step(t, st, r, aspects):
                          "OSError", "CheckConditionError")
         if first == "good" and len(ex) == 1 and (o[0] == "cc" or (o[0] == "exn" and o[1] in status_errors)):
             return "status", "%s raised %s although the target reported GOOD" % (st["m"], o)
-        if is_cc(first) and st["m"] not in ("atapassthrough12", "atapassthrough16"):
+        if is_cc(first) and not st["m"].startswith("atapassthrough"):
             k, asc, ascq, _d = sense_of(first)
             undecodable = first.endswith(":u") or first.endswith(":z")
             if o[0] != "cc" or (not undecodable and (o[1] != asc or o[2] != ascq)):
@@ -339,7 +352,7 @@ def oracle_step(t, st, r, aspects):
             return "status", "%s returned normally although the target answered CHECK CONDITION (no sense data available)" % st["m"]
         if first in ("busy", "conflict", "oserror") and o[0] != "exn":
             return "status", "%s: %s surfaced as %s" % (st["m"], first, o)
-        if o[0] == "return" and r.get("raw_sense") and st["m"] not in ("atapassthrough12", "atapassthrough16"):
+        if o[0] == "return" and r.get("raw_sense") and not st["m"].startswith("atapassthrough"):
             return "status", "%s: raw sense attached to a command although it was not asked for" % st["m"]
     if "opcode" in aspects and ex:
         if ex[0]["op"] != op or len(ex[0]["cdb"]) != ln:
@@ -352,6 +365,8 @@ def oracle_step(t, st, r, aspects):
                     return "buffers", "%s: the CDB announces ALLOCATION LENGTH %d but the data-in buffer handed to the transport has %s bytes" % (
                         st["m"], announced, e["in_len"])
     if "buffers" in aspects and o[0] == "return" and first == "good":
+        if r.get("caller_buffer_ok") is False:
+            return "buffers", "%s: the data-in buffer the caller supplied was not the one handed to the device (the caller's buffer does not hold what the device wrote)" % st["m"]
         if r.get("datain_ok") is False:
             return "buffers", "%s: the data-in buffer of the returned command is not what the device wrote" % st["m"]
         if r.get("result_ok") not in (None, True):
